@@ -322,11 +322,12 @@ LOGGING_FLAVOURS = ("getitem", "sync_iter", "seq_abc", "set_abc") + ASYNC_FLAVOU
 
 class SrcPlan:
     __slots__ = ("name", "items", "flavour", "suspend", "aclose_suspends", "fresh", "aclose_mode", "falsy", "resilient",
-                 "iter_fault", "equal", "slow", "dual", "lazy_open", "hand_next")
+                 "iter_fault", "equal", "slow", "dual", "lazy_open", "hand_next", "as_gen")
 
     def __init__(self, name, items, flavour="list", suspend=(), aclose_suspends=0, fresh=False, aclose_mode=0,
                  falsy=False, resilient=False, iter_fault=None, equal=False, slow=None, dual=False, lazy_open=False,
                  hand_next=False):
+        self.as_gen = False  # (sync_iter) the iterator is a regular *generator* object: it has close(), which is its owner's
         self.lazy_open = lazy_open  # (class-based) __anext__ only works after __aiter__ has been called
         self.hand_next = hand_next  # (class-based) plain def __anext__ returning a hand-written awaitable object
         self.dual = dual  # (class-based) also offers the synchronous protocol, with another meaning: the async side counts
@@ -361,6 +362,7 @@ class SrcPlan:
             "dual": self.dual,
             "lazy_open": self.lazy_open,
             "hand_next": self.hand_next,
+            "regular_generator": self.as_gen,
         }
 
 
@@ -525,6 +527,12 @@ class SyncIter:
         if got is _EOS:
             raise StopIteration
         return got
+
+
+def _sync_generator(it):
+    """A regular generator over a one-shot iterator (what a ``def`` with ``yield`` gives its caller)"""
+    for item in it:
+        yield item
 
 
 class GetItemSeq:
@@ -902,7 +910,7 @@ def make_async_source(world, plan):
     elif fl == "set_abc":
         obj = SetAbc(src)
     elif fl == "sync_iter":
-        obj = SyncIter(src)
+        obj = SyncIter(src) if not plan.as_gen else _sync_generator(SyncIter(src))
     elif fl == "agen":
         obj = _agen_stream(src)
         src.agen = obj
@@ -939,7 +947,7 @@ def make_ref_source(world, plan, as_container=False):
     elif plan.flavour == "set_abc":
         src.obj = SetAbc(src)
     else:
-        src.obj = SyncIter(src)
+        src.obj = SyncIter(src) if not (plan.flavour == "sync_iter" and plan.as_gen) else _sync_generator(SyncIter(src))
     return src
 
 
